@@ -88,6 +88,54 @@ def fault_cases(ck, count):
                           "replay": "feed the line to harness/drv.cpp built against /repo (encf/decf: last field = number of bytes delivered before reads fail with EIO)"})
 
 
+def hash_boundary_runs(ck):
+    """termination is also a matter of the sequential passes (header, HMAC): plaintext lengths for which the authenticated region
+    [48, EOF) = 20T + padded body is an EXACT multiple of the hash refill buffer (256 bytes in this build), and neighbours; encrypt, then
+    verify and decrypt of the result, real threads; each must return"""
+    from props.filegen import small_driver, small_env, rnd_bytes, rnd_key, rnd_seed, split_impl
+    import tools.wv as wv_
+    exe = small_driver(ck)
+    env = small_env(ck)
+    r = ck.rng
+    R = 64 * 4
+    lines, meta = [], {}
+    for T in (1, 2, 3, 4, 8, 16):
+        for m in (1, 2, 3):
+            body = R * m - 20 * T
+            if body < 16 or body % 16:
+                continue
+            for n in (body - 16, body - 1, body - 17, body):           # padded length = 16 * (n // 16 + 1)
+                if n < 0:
+                    continue
+                cid = "hb%d_%d_%d" % (T, m, n)
+                lines.append("%s enc %d %d %d %s %s %s" % (cid, r.randrange(5), r.randrange(3), T, rnd_key(r).hex(), rnd_seed(r).hex(), wv_.hexs(rnd_bytes(r, n))))
+                meta[cid] = (T, n, 16 * (n // 16 + 1) + 20 * T)
+    out = wv_.run_lines([exe], lines, env=dict(env, WV_TIMEOUT_MS="10000"))
+    l2 = []
+    for l in lines:
+        cid = l.split()[0]
+        head = split_impl(out.get(cid, "(no output)"))[0]
+        ck.cov["evaluations"] += 1
+        if not head.startswith("OK "):
+            ck.violation("encryption did not return normally for a plaintext whose authenticated region is %d bytes (hash refill buffer: %d): %s" % (meta[cid][2], R, head[:30]),
+                         {"class": None, "case": l[:3000], "authenticated_region_bytes": meta[cid][2], "hash_refill_bytes": R, "implementation": head[:200], "driver_flags": ck.impl_flags,
+                          "replay": "echo '<case>' | harness/drv.cpp built with the flags above against /repo"})
+            return
+        w = l.split()
+        l2.append("%s_v ver %s %s %s" % (cid, w[4], w[5], head.split()[1]))
+        l2.append("%s_d dec %s %s %s" % (cid, w[4], w[5], head.split()[1]))
+    out2 = wv_.run_lines([exe], l2, env=dict(env, WV_TIMEOUT_MS="10000"))
+    for l in l2:
+        cid = l.split()[0]
+        head = split_impl(out2.get(cid, "(no output)"))[0]
+        ck.cov["evaluations"] += 1
+        if not head.startswith("OK"):
+            ck.violation("verify / decrypt of a freshly encrypted file did not return success (authenticated region an exact multiple of the hash refill buffer or next to one): %s" % head[:30],
+                         {"class": None, "case": l[:3000], "implementation": head[:200], "driver_flags": ck.impl_flags})
+            return
+    ck.cov.setdefault("case_classes", {})["authenticated-region-at-hash-refill-boundary"] = len(lines)
+
+
 def run(ck):
     ck.prove(["Properties_C04", "SrcRun4", "RefineConcSimEx", "Properties_SrcConc", "Properties_SrcConc2"], THEOREMS + ["SRC_protocol_follows_PipeConc", "SRC_protocol_never_stuck", "SRC_protocol_machine_is_followed_by_PipeConc"])
     exe = shim_driver(ck)
@@ -109,6 +157,7 @@ def run(ck):
     ck.cov["max_steps_seen"] = max([len(x["steps"]) for x in res] or [0])
     C03.end_to_end(ck, exe, 120 if big else 30)
     fault_cases(ck, 150 if big else 40)
+    hash_boundary_runs(ck)
     if big:
         from props.filegen import production_scale
         production_scale(ck)     # 40 MiB and > 4 GiB with the production constants: an operation that does not return there is this property's
